@@ -42,6 +42,16 @@ func provOf(t *Terminal, v Val) string {
 		case name == "(*etree.Element).Copy":
 			return "copy(" + provOf(t, x.Args[0]) + ")"
 		}
+	case *FieldV:
+		// the parse helper may hand its results back in a small struct
+		if cv, ok := x.X.(*CallV); ok && shortName(cv.Callee) == "parseResponse" {
+			switch typeStr(x.Type()) {
+			case "*etree.Document":
+				return "rawdoc"
+			case "*etree.Element":
+				return "raw"
+			}
+		}
 	case *IterElemV:
 		return "desc(" + provOf(t, x.Root) + ")"
 	case *ParamV:
@@ -586,12 +596,13 @@ func screenRule(c *Ctx, rule string) {
 		readErrNil, k := t.eqFact(lastRead.Res[0], nilOf(nil))
 		c.check(k && readErrNil, rule, fname, "accept requires ReadFromBytes == nil", pos, "last parse succeeded", "accepts although the last ReadFromBytes result is not known nil")
 		doc, bytesV := lastRead.Args[0], lastRead.Args[1]
-		c.check(t.Vals[0].Key() == doc.Key(), rule, fname, "returned document is the parsed one", pos, "doc == receiver of the successful ReadFromBytes", "returns "+ap(t.Vals[0]))
+		retDoc, retEl := resultOfType(t, "*etree.Document"), resultOfType(t, "*etree.Element")
+		c.check(retDoc != nil && retDoc.Key() == doc.Key(), rule, fname, "returned document is the parsed one", pos, "doc == receiver of the successful ReadFromBytes", "returns "+apOrNone(retDoc))
 		rootOK := false
-		if cv, ok := t.Vals[1].(*CallV); ok && shortName(cv.Callee) == "(*etree.Document).Root" && cv.Args[0].Key() == doc.Key() {
-			rootOK = t.nonNil(t.Vals[1])
+		if cv, ok := retEl.(*CallV); ok && shortName(cv.Callee) == "(*etree.Document).Root" && cv.Args[0].Key() == doc.Key() {
+			rootOK = t.nonNil(retEl)
 		}
-		c.check(rootOK, rule, fname, "returned element is doc.Root() and non-nil", pos, "nil root is an error", "returned element "+ap(t.Vals[1])+" is not the non-nil root of the parsed document")
+		c.check(rootOK, rule, fname, "returned element is doc.Root() and non-nil", pos, "nil root is an error", "returned element "+apOrNone(retEl)+" is not the non-nil root of the parsed document")
 		screened := false
 		for _, e := range t.calls("rtvalidator.Validate") {
 			if cv, ok := e.Args[0].(*MakeIfaceV); ok {
@@ -1140,7 +1151,13 @@ func ruleC10(c *Ctx) {
 			// parse through parseResponse
 			for _, t := range res.Terms {
 				if t.accepting(res.Root) {
-					c.check(len(t.calls("parseResponse")) == 1, "C10-R2/parse", shortFn(res.Root), "input parsed by parseResponse", c.P.InstrPos(t.Instr), "screened, bounded parse", "accepting path does not go through parseResponse")
+					nParse := 0
+					for _, e := range t.calls("parseResponse") {
+						if e.Kind == EvCall {
+							nParse++ // the summarised parse helper itself (a wrapper stepped through on the way does not count twice)
+						}
+					}
+					c.check(nParse == 1, "C10-R2/parse", shortFn(res.Root), "input parsed by parseResponse", c.P.InstrPos(t.Instr), "screened, bounded parse", "accepting path does not go through parseResponse")
 				}
 			}
 			sk[spec.Kind] = skeleton(c, res)
@@ -1399,4 +1416,24 @@ func effectiveTargets(p *Prog, s callSite, argIdx, depth int) []effTarget {
 		return []effTarget{{Site: s, Type: typeStr(a.Type())}}
 	}
 	return out
+}
+
+// resultOfType: the returned value of the given type — a result of the tuple or a field of a returned result struct.
+func resultOfType(t *Terminal, ts string) Val {
+	for _, v := range t.Vals {
+		if v == nil {
+			continue
+		}
+		if typeStr(v.Type()) == ts {
+			return v
+		}
+		if sl, ok := v.(*StructLitV); ok {
+			for _, n := range sl.Names {
+				if f := sl.Fields[n]; f != nil && typeStr(f.Type()) == ts {
+					return f
+				}
+			}
+		}
+	}
+	return nil
 }
